@@ -85,7 +85,7 @@ type instOpts struct {
 	maxConc     int32
 	xffHeader   string
 	logQueries  bool
-	idleTimeout int // seconds, stream listeners
+	idleTimeout int  // seconds, stream listeners
 	metrics     bool // the prometheus endpoint is configured (its port: in.ports["metrics"])
 }
 
@@ -399,21 +399,22 @@ func installSink() {
 // ---------------------------------------------------------------- clients
 
 type qspec struct {
-	name    string
-	typ     uint16
-	cls     uint16
-	id      uint16
-	rd      bool
-	opcode  int
-	qr      bool
-	nq      int // number of questions (default 1); extra questions are copies with another name
-	opt     bool
-	optsize uint16
-	optopts bool // option-laden OPT (cookie, ECS, padding, DO)
+	name       string
+	typ        uint16
+	cls        uint16
+	id         uint16
+	rd         bool
+	opcode     int
+	qr         bool
+	nq         int // number of questions (default 1); extra questions are copies with another name
+	opt        bool
+	optsize    uint16
+	optopts    bool // option-laden OPT (cookie, ECS, padding, DO)
 	nqdistinct bool // further questions (nq > 1) get unrelated names
-	optzero bool // advertise a UDP size of 0
-	optmid  bool // another record follows the OPT in the additional section
-	raw     []byte
+	optzero    bool // advertise a UDP size of 0
+	mayRefuse  bool // the scenario expects that this query may be refused by the rate limiter
+	optmid     bool // another record follows the OPT in the additional section
+	raw        []byte
 }
 
 func (q qspec) wire() []byte {
@@ -497,7 +498,7 @@ func (in *inst) send(lst, src string, q qspec, wait time.Duration, hdr map[strin
 		srcA, _ = netip.ParseAddr(x)
 	}
 	in.tr.Emit("cl.send", "qn", qn, "lst", lst, "src", addrJS(srcA), "id", int(q.id), "qr", q.qr, "opcode", q.opcode, "rd", q.rd,
-		"nq", q.nq, "name", labelsJS(q.name), "cls", int(q.cls), "typ", int(q.typ), "opt", q.opt, "optsize", int(q.effSize()), "optopts", q.optopts, "len", len(w), "mayrefuse", strings.HasPrefix(src, "127.0.1.") && in.name == "c15live")
+		"nq", q.nq, "name", labelsJS(q.name), "cls", int(q.cls), "typ", int(q.typ), "opt", q.opt, "optsize", int(q.effSize()), "optopts", q.optopts, "len", len(w), "mayrefuse", q.mayRefuse || (strings.HasPrefix(src, "127.0.1.") && in.name == "c15live"))
 	raw, status, err := in.roundTrip(lst, src, w, wait, hdr)
 	if err != nil || raw == nil {
 		e := ""
@@ -597,11 +598,9 @@ func (in *inst) sendBatch(lst, src string, qs []qspec, wait time.Duration) {
 
 // sendMay is send for a client that may legitimately be refused at connection level (limiter)
 func (in *inst) sendMay(lst, src string, q qspec, wait time.Duration) {
-	mayRefuse = true
+	q.mayRefuse = true
 	in.send(lst, src, q, wait, nil)
 }
-
-var mayRefuse bool
 
 func ttlJS(t uint32) []int { return []int{int(t >> 16), int(t & 0xffff)} }
 
